@@ -278,6 +278,7 @@ func c09(r *engine.Report, p *engine.Program) {
 	r.Check("R4-pins-reach-verifier", "ReceptorVerifyFunc: call sites", rvf.Pos(), len(where) == 3, fmt.Sprintf("3 call sites: %v", where), fmt.Sprintf("call sites changed: %v (frozen: GetClientTLSConfig, PrepareTLSServerConfig, listen's GetConfigForClient)", where))
 
 	profileImmutableRule(r, p)
+	trustPoolRule(r, p)
 
 	// R6 exact name match
 	prn := p.Func("utils.ParseReceptorNamesFromCert")
@@ -1118,4 +1119,62 @@ func verifierGlobals(p *engine.Program, V *ssa.Function) []string {
 	}
 	walk(V)
 	return out
+}
+
+// trustPoolRule (R8): "chains to the configured authority" — the pools installed as RootCAs /
+// ClientCAs hold only what the operator configured: each is a fresh x509.NewCertPool() filled by
+// AppendCertsFromPEM of the file named by the same-named option; receptor never starts from the
+// host's system pool.
+func trustPoolRule(r *engine.Report, p *engine.Program) {
+	n := 0
+	p.AllInstrs(func(fn *ssa.Function, in ssa.Instruction) {
+		if engine.IsMock(fn) || !inReceptor(fn) {
+			return
+		}
+		st, ok := in.(*ssa.Store)
+		if !ok {
+			return
+		}
+		fa, ok := st.Addr.(*ssa.FieldAddr)
+		if !ok {
+			return
+		}
+		fv := engine.FieldAddrVar(fa)
+		if !isTLSConfigField(fv, "RootCAs") && !isTLSConfigField(fv, "ClientCAs") {
+			return
+		}
+		n++
+		okPool := false
+		if c, isC := engine.Unwrap(st.Val).(*ssa.Call); isC && engine.IsCallTo(c.Common(), "crypto/x509.NewCertPool") {
+			okPool = true
+		}
+		// filled from the option of the same name
+		filled := false
+		for _, ci := range engine.CallsIn(fn) {
+			if engine.IsCallTo(ci.Common(), "(*crypto/x509.CertPool).AppendCertsFromPEM") && engine.Unwrap(ci.Common().Args[0]) == engine.Unwrap(st.Val) {
+				// bytes come from os.ReadFile(cfg.<same name>)
+				if e, isE := engine.Unwrap(ci.Common().Args[1]).(*ssa.Extract); isE {
+					if rf, isRF := e.Tuple.(*ssa.Call); isRF && engine.IsCallTo(rf.Common(), "os.ReadFile") {
+						if f, _ := engine.FieldOfLoad(rf.Common().Args[0]); f != nil && f.Name() == fv.Name() {
+							filled = true
+						}
+					}
+				}
+			}
+		}
+		r.Check("R8-trust-pool", fmt.Sprintf("%s: tls.Config.%s", engine.FuncName(fn), fv.Name()), st.Pos(), okPool && filled,
+			"the pool is a fresh x509.NewCertPool() filled with the PEM file named by the "+fv.Name()+" option, nothing else",
+			"the trust pool installed as "+fv.Name()+" is not a fresh pool filled only from the configured bundle (e.g. it starts from the system pool): peers whose certificate chains to some other authority are accepted")
+	})
+	var sys []string
+	p.AllInstrs(func(fn *ssa.Function, in ssa.Instruction) {
+		if engine.IsMock(fn) || !inReceptor(fn) {
+			return
+		}
+		if ci, ok := in.(ssa.CallInstruction); ok && engine.IsCallTo(ci.Common(), "crypto/x509.SystemCertPool") {
+			sys = append(sys, engine.FuncName(fn))
+		}
+	})
+	r.Check("R8-trust-pool", "x509.SystemCertPool: callers in receptor", token.NoPos, len(sys) == 0, "none", fmt.Sprintf("called from %v", sys))
+	r.Min("R8-trust-pool", 3)
 }
